@@ -32,6 +32,8 @@ type sessionDef struct {
 	stream bool
 	g, e   string
 	ot     string
+	// thorough: not part of the quick tier
+	thorough bool
 }
 
 var sessions = []sessionDef{
@@ -41,8 +43,11 @@ var sessions = []sessionDef{
 	{name: "xor12/ideal", src: "package main\nfunc main(a, b uint12) uint12 {\n\treturn a ^ b\n}\n", g: "3855", e: "240", ot: "ideal"},
 	{name: "stream-add/ideal", stream: true, src: "package main\nfunc main(a, b uint8) uint8 {\n\treturn a + b\n}\n", g: "200", e: "55", ot: "ideal"},
 	{name: "stream-if/ideal", stream: true, src: "package main\nfunc main(a, b uint4) (uint4, bool) {\n\tif a > b {\n\t\treturn a - b, true\n\t}\n\treturn b & a, false\n}\n", g: "9", e: "6", ot: "ideal"},
-	{name: "cmp9-2out/co", src: "package main\nfunc main(a int9, b int9) (int9, bool) {\n\tif a > b {\n\t\treturn a - b, true\n\t}\n\treturn b - a, false\n}\n", g: "300", e: "17", ot: "co"},
-	{name: "stream-arr/co", stream: true, src: "package main\nfunc main(a [2]uint4, b uint4) uint4 {\n\treturn a[0] + a[1] + b\n}\n", g: "0x3c", e: "5", ot: "co"},
+	// more than 64 output bits, all of them 1: a garbler that keeps per-output state in a machine word
+	{name: "xor72/ideal", src: "package main\nfunc main(a, b uint72) uint72 {\n\treturn a ^ b\n}\n", g: "0", e: "0xffffffffffffffffff", ot: "ideal"},
+	{name: "stream-or130/ideal", stream: true, thorough: true, src: "package main\nfunc main(a, b uint130) uint130 {\n\treturn a | b\n}\n", g: "1", e: "0x3fffffffffffffffffffffffffffffffe", ot: "ideal"},
+	{name: "cmp9-2out/co", thorough: true, src: "package main\nfunc main(a int9, b int9) (int9, bool) {\n\tif a > b {\n\t\treturn a - b, true\n\t}\n\treturn b - a, false\n}\n", g: "300", e: "17", ot: "co"},
+	{name: "stream-arr/co", stream: true, thorough: true, src: "package main\nfunc main(a [2]uint4, b uint4) uint4 {\n\treturn a[0] + a[1] + b\n}\n", g: "0x3c", e: "5", ot: "co"},
 }
 
 var circCache = map[int]*circuit.Circuit{}
@@ -190,7 +195,7 @@ func work(ctx *runner.Ctx) {
 	nsess := len(sessions)
 	var cases []any
 	for si := 0; si < nsess; si++ {
-		if quick && si >= 6 {
+		if quick && sessions[si].thorough {
 			continue
 		}
 		r := runSession(si, sess.Opts{Seed: 7, Record: true})
